@@ -324,6 +324,21 @@ def run_check(world, tier, seed, runs, wall_cap, workers=None, block=None, shrin
             finding_status[fid] = r.ctx.findings.get(fid, 0)
             total["findings"].update(r.ctx.findings)
 
+    # fixed programs of the world (experiments too costly to sample, run once per check run, in-process)
+    for name, prog in (world.fixed_programs(tier) if hasattr(world, "fixed_programs") else []):
+        if violation is not None or error is not None:
+            break
+        prog = json.loads(json.dumps(prog))
+        prog.setdefault("world", world_id)
+        r = execute(world, prog, known)
+        total["counts"].update(r.ctx.counts)
+        total["findings"].update(r.ctx.findings)
+        if r.error is not None:
+            error = {"index": f"fixed:{name}", "trace": r.error, "program": prog}
+        elif r.violation is not None:
+            violation = {"index": f"fixed-{name}", "record": r.violation.record(), "vclass": r.violation.vclass, "program": prog, "digest": r.digest,
+                         "original_ops": len(prog.get("ops", [])), "minimised_ops": len(prog.get("ops", []))}
+
     wall = time.monotonic() - t0
     rc = 0
     replay_path = None
